@@ -27,8 +27,9 @@ Proof. reflexivity. Qed.
 Lemma link_registered_spec : forall k, In k Model.registered <-> In k registered_claims.
 Proof. intro k. unfold Model.registered, registered_claims. simpl. tauto. Qed.
 
-Lemma link_reset_duration : C04_Gen.claimHistoryResetDuration = 24 * 3600 * 1000000000.
-Proof. reflexivity. Qed.
+Lemma link_reset_duration :
+  C04_Gen.claimHistoryResetDuration = claim_history_reset_duration /\ claim_history_reset_duration = 24 * 3600 * 1000000000.
+Proof. split; reflexivity. Qed.
 
 Lemma link_authorize_calls : C04_Gen.authorize_calls =
   ["token.NewParser"; "opt"; "parser.ParseToken";
